@@ -571,6 +571,8 @@ public:
      */
     void validateMathMLElementsChildrenAndSiblings(const XmlNodePtr &node,
                                                    const ComponentPtr &component);
+    void validateMathMLElementsChildren(const XmlNodePtr &node,
+                                        const ComponentPtr &component);
 
     /**
      * @brief Check if the provided @p node is a supported MathML element.
@@ -2285,6 +2287,8 @@ void Validator::ValidatorImpl::validateMathMLElementsChildrenAndSiblings(const X
                 && isSecondMathmlSibling(parentNode, node, component)
                 && hasOneMathmlChild(node, component);
         }
+
+        validateMathMLElementsChildren(node, component);
     } else if (node->isMathmlElement("logbase")) {
         auto parentNode = node->parent();
 
@@ -2292,6 +2296,8 @@ void Validator::ValidatorImpl::validateMathMLElementsChildrenAndSiblings(const X
             && hasFirstMathmlSiblingWithName(parentNode, node, "log", component)
             && isSecondMathmlSibling(parentNode, node, component)
             && hasOneMathmlChild(node, component);
+
+        validateMathMLElementsChildren(node, component);
     } else if (node->isMathmlElement("bvar")) {
         // A 'bvar' element can have one or two children, e.g.
         //
@@ -2322,6 +2328,19 @@ void Validator::ValidatorImpl::validateMathMLElementsChildrenAndSiblings(const X
             && hasFirstMathmlSiblingWithName(parentNode, node, "diff", component)
             && isSecondMathmlSibling(parentNode, node, component)
             && hasOneOrTwoMathmlChildren(node, component);
+
+        validateMathMLElementsChildren(node, component);
+    }
+}
+
+void Validator::ValidatorImpl::validateMathMLElementsChildren(const XmlNodePtr &node,
+                                                             const ComponentPtr &component)
+{
+    // Check what a qualifier element (i.e. 'degree', 'logbase' and 'bvar')
+    // contains, as is done for what an 'apply' element contains.
+
+    for (size_t i = 0, iMax = mathmlChildCount(node); i < iMax; ++i) {
+        validateMathMLElementsChildrenAndSiblings(mathmlChildNode(node, i), component);
     }
 }
 
